@@ -14,6 +14,10 @@ class Thrown(Exception):
     pass
 
 
+class ThrownBase(BaseException):
+    """thrown into generators too: not an Exception subclass (like KeyboardInterrupt / CancelledError)"""
+
+
 class Env:
     def __init__(self, prog):
         self.prog = prog
@@ -73,7 +77,7 @@ class Env:
                         except GeneratorExit:
                             env.saw_exit[g] = True
                             raise
-                        except Thrown as e:
+                        except (Thrown, ThrownBase) as e:
                             env.caught[g] = e
                             if s != "ycatch":
                                 raise
@@ -159,7 +163,8 @@ class Driver:
                     env.sent[g] = s
                     v = it.send(s)
                 elif how == "throw":
-                    e = Thrown("thrown into g%d" % g)
+                    env.nthrow = getattr(env, "nthrow", 0) + 1
+                    e = (Thrown if env.nthrow % 2 else ThrownBase)("thrown into g%d" % g)
                     env.thrown[g] = e
                     env.caught.pop(g, None)
                     v = it.throw(e)
@@ -182,7 +187,7 @@ class Driver:
                     why = "return_value_altered"
                 if how == "send" and env.received.get(g) is not env.sent[g]:
                     why = why or "sent_value_altered"
-            except Thrown as e:
+            except (Thrown, ThrownBase) as e:
                 out = "raised"
                 if e is not env.thrown.get(g):
                     why = "thrown_exception_altered"
@@ -216,10 +221,17 @@ def execute(prog):
                 a = env.acts[cur - 1]
                 if m["task_uuid"] != a.task_uuid or m["task_level"][:-1] != a._task_level.as_list():
                     env.final = env.final or "body_message_attributed_to_wrong_action"
+    # which actions got an end message, and with which status (every action is finished at most once, in its own context)
+    ended = []                      # (computed while the generators are still alive: finalising them would log more)
+    for i, a in enumerate(env.acts):
+        ends = [m for m in env.msgs if m.get("task_uuid") == a.task_uuid and m.get("action_status") in ("succeeded", "failed")
+                and m["task_level"][:-1] == a._task_level.as_list()]
+        for m in ends:
+            ended.append([i + 1, "ok" if m["action_status"] == "succeeded" else "failed"])
     bodies = [list(b) for b in prog["bodies"]]
     while len(bodies) < 3:
         bodies.append([])
-    return {"bodies": bodies, "ev": env.ev, "final": env.final, "error": env.error or ""}
+    return {"bodies": bodies, "ev": env.ev, "final": env.final, "ended": ended, "error": env.error or ""}
 
 
 def main():
